@@ -16,6 +16,7 @@ import warnings
 import numpy as np
 import pandas as pd
 from numpy.random import RandomState
+from sklearn.base import BaseEstimator
 
 from common import enc_list
 
@@ -41,30 +42,53 @@ LOG = []
 _COUNTER = itertools.count()
 
 
-class _SpyBase:
-    """Learner that records the row identifiers (column 0 of X) of every call.  `role` 't' = treatment model,
-    'y' = outcome model (then column 1 of X is the exposure).  Optionally wraps a real learner."""
+class _State:
+    """fitted state of a spy; for the composite spies it is a *nested* object created once and mutated in place by
+    fit, so a shallow copy of the learner shares it (like the steps of a Pipeline or the candidate list of a
+    SuperLearner), while a deep copy does not"""
 
-    def __init__(self, role='t', inner=None):
+    def __init__(self):
+        self.fit_id = None
+        self.train_ids = []
+        self.salt = 0
+        self.inner = None
+
+
+class _SpyBase(BaseEstimator):
+    """Learner that records the row identifiers (column 0 of X) of every call.  `role` 't' = treatment model,
+    'y' = outcome model (then column 1 of X is the exposure).  Optionally wraps a real learner.  With
+    `nested=True` the fitted state lives in a nested object (composite learner).  What a copy's current fit saw
+    is always read from that state object at prediction time."""
+
+    def __init__(self, role='t', inner=None, nested=False):
         self.role = role
         self.inner = inner
+        self.nested = nested
+        if nested:
+            self.state = _State()
 
     def get_params(self, deep=True):
-        return {'role': self.role, 'inner': self.inner}
+        return {'role': self.role, 'inner': self.inner, 'nested': self.nested}
 
     def set_params(self, **p):
         for k, v in p.items():
             setattr(self, k, v)
         return self
 
+    def __sklearn_is_fitted__(self):      # consulted by sklearn.pipeline.Pipeline before predicting
+        st = getattr(self, 'state', None)
+        return st is not None and st.fit_id is not None
+
     def fit(self, X, y):
         X = np.asarray(X)
-        self.fit_id_ = next(_COUNTER)
-        self.train_ids_ = [int(v) for v in X[:, 0]]
-        self.salt_ = (sum(self.train_ids_) * 31 + len(self.train_ids_)) % 997
-        LOG.append({'ev': 'fit', 'role': self.role, 'fit_id': self.fit_id_, 'ids': list(self.train_ids_)})
+        st = self.state if self.nested else _State()
+        st.fit_id = next(_COUNTER)
+        st.train_ids = [int(v) for v in X[:, 0]]
+        st.salt = (sum(st.train_ids) * 31 + len(st.train_ids)) % 997
         if self.inner is not None:
-            self.inner_ = copy.deepcopy(self.inner).fit(X, np.asarray(y))
+            st.inner = copy.deepcopy(self.inner).fit(X, np.asarray(y))
+        self.state = st
+        LOG.append({'ev': 'fit', 'role': self.role, 'fit_id': st.fit_id, 'ids': list(st.train_ids)})
         return self
 
     def _values(self, X, how):
@@ -74,14 +98,14 @@ class _SpyBase:
         if self.role == 'y':
             acol = X[:, 1]
             arm = 1 if np.all(acol == 1) else (2 if np.all(acol == 0) else -1)
-        LOG.append({'ev': 'pred', 'role': self.role, 'fit_id': getattr(self, 'fit_id_', None),
-                    'train': list(getattr(self, 'train_ids_', [])), 'ids': ids, 'arm': arm, 'how': how})
+        st = getattr(self, 'state', None) or _State()
+        LOG.append({'ev': 'pred', 'role': self.role, 'fit_id': st.fit_id,
+                    'train': list(st.train_ids), 'ids': ids, 'arm': arm, 'how': how})
         if self.inner is not None:
             if how == 'proba':
-                return np.clip(self.inner_.predict_proba(X)[:, 1], 0.05, 0.95)
-            return np.clip(self.inner_.predict(X), 0.05, 0.95)
-        salt = getattr(self, 'salt_', 0)
-        v = np.array([((i * 7919 + salt * 104729) % 1009) / 1009.0 for i in ids])
+                return np.clip(st.inner.predict_proba(X)[:, 1], 0.05, 0.95)
+            return np.clip(st.inner.predict(X), 0.05, 0.95)
+        v = np.array([((i * 7919 + st.salt * 104729) % 1009) / 1009.0 for i in ids])
         return 0.25 + 0.5 * v + (0.02 if arm == 1 else 0.0)
 
 
@@ -99,16 +123,38 @@ class SpyReg(_SpyBase):
         return self._values(X, 'predict')
 
 
+def _pipeline(spy):
+    """a real sklearn Pipeline around a spy: the fitted final step lives in the nested `steps` list"""
+    from sklearn.pipeline import Pipeline
+    from sklearn.preprocessing import FunctionTransformer
+    return Pipeline([('pass', FunctionTransformer(validate=False)), ('spy', spy)])
+
+
 def make_learners(kind, continuous):
+    ycls = SpyReg if continuous else SpyProba
     if kind == 'proba':
-        return SpyProba('t'), (SpyReg('y') if continuous else SpyProba('y'))
+        return SpyProba('t'), ycls('y')
     if kind == 'reg':
         return SpyProba('t'), SpyReg('y')
+    if kind == 'nested':          # composite spies: fitted state in a nested object (treatment and outcome)
+        return SpyProba('t', nested=True), ycls('y', nested=True)
+    if kind == 'nested_reg':
+        return SpyProba('t', nested=True), SpyReg('y', nested=True)
+    if kind == 'pipeline':        # real sklearn Pipeline around a spy (treatment and outcome)
+        return _pipeline(SpyProba('t')), _pipeline(ycls('y'))
     from sklearn.linear_model import LogisticRegression, LinearRegression
     inner_a = LogisticRegression(C=0.5, max_iter=200)
+    if kind == 'nested_real':     # composite spy wrapping a real learner: the fitted sklearn model is nested too
+        return (SpyProba('t', inner_a, nested=True),
+                SpyReg('y', LinearRegression(), nested=True) if continuous else
+                SpyProba('y', LogisticRegression(C=0.5, max_iter=200), nested=True))
     if continuous:
         return SpyProba('t', inner_a), SpyReg('y', LinearRegression())
     return SpyProba('t', inner_a), SpyProba('y', LogisticRegression(C=0.5, max_iter=200))
+
+
+KINDS = ['proba', 'nested', 'reg', 'pipeline', 'real', 'nested_reg', 'nested_real']
+KINDS_TINY = ['proba', 'nested', 'reg', 'pipeline', 'nested_reg']
 
 
 def gen_data(case):
@@ -297,14 +343,15 @@ def check_case(chk, drv, case):
                   dict(ctx, model=rep if not ok else None, observed=canon(part) if not ok else None))
 
 
-def make_case(rng, cls, k, npart, tier, tiny=False):
+def make_case(rng, cls, k, npart, tier, tiny=False, kind=None):
     n = int(rng.integers(k, 3 * k + 1)) if tiny else int(rng.integers(4 * k, (12 if tier == 'quick' else 30) * k))
     n_missing = int(rng.integers(0, 4)) if rng.uniform() < 0.4 else 0
     continuous = bool(rng.uniform() < 0.3)
     return {'cls': cls, 'k': int(k), 'npart': int(npart), 'n_total': n + n_missing, 'n_missing': n_missing,
             'continuous': continuous,
-            # a real learner cannot be fitted on a one-class part: tiny parts use the synthetic spies only
-            'kind': str(rng.choice(['proba', 'reg', 'real'], p=[0.6, 0.4, 0.0] if tiny else [0.5, 0.25, 0.25])),
+            # learner kinds are rotated by the caller (`kind`); a real learner cannot be fitted on a one-class part,
+            # so tiny parts use the synthetic / composite / pipeline spies only
+            'kind': kind or 'proba',
             'index': str(rng.choice(['default', 'shuffled', 'offset'])),
             'bound': (False if rng.uniform() < 0.7 else 0.05), 'method': str(rng.choice(['median', 'mean'])),
             'data_seed': int(rng.integers(0, 2 ** 31)), 'random_state': int(rng.integers(0, 2 ** 31))}
@@ -313,7 +360,7 @@ def make_case(rng, cls, k, npart, tier, tiny=False):
 def run(chk, drv, rng, tier):
     reps = 1 if tier == 'quick' else 5
     cells = set()
-    count = 0
+    count = tcount = 0
     for rep in range(reps):
         for ci, (cls, double) in enumerate(CLASSES.items()):
             for k in range(3 if double else 2, 7):
@@ -321,7 +368,7 @@ def run(chk, drv, rng, tier):
                 # n_partitions) pair occurs for a single and for a double estimator; thorough: the full product
                 nparts = range(1, 5) if tier == 'thorough' else sorted({1 + (k + ci) % 4, 1 + (k + ci + 2) % 4})
                 for npart in nparts:
-                    case = make_case(rng, cls, k, npart, tier)
+                    case = make_case(rng, cls, k, npart, tier, kind=KINDS[count % len(KINDS)])
                     count += 1
                     case['twice'] = tier == 'thorough' or count % 2 == 0
                     check_case(chk, drv, case)
@@ -329,7 +376,9 @@ def run(chk, drv, rng, tier):
             # tiny parts (n between k and 3k): AIPTW only -- the TMLE targeting GLM needs data in every part
             if 'AIPTW' in cls:
                 for k in range(3 if double else 2, 7):
-                    case = make_case(rng, cls, k, 1 + (k + rep) % 2, tier, tiny=True)
+                    case = make_case(rng, cls, k, 1 + (k + rep) % 2, tier, tiny=True,
+                                     kind=KINDS_TINY[tcount % len(KINDS_TINY)])
+                    tcount += 1
                     case['twice'] = tier == 'thorough'
                     check_case(chk, drv, case)
             # rejected configurations
